@@ -122,9 +122,11 @@ claim('C14', 'proof',
       'rank r keeps min(r, full), cutoff keeps exactly the values exceeding the cutoff (for sorted values, via the '
       'specification of the last-index search), the three factors are cut at the same index and stay sorted, a rule '
       'retaining nothing raises, parameter validation. Correspondence: retained rank / ValueError on exact '
-      'rational singular-value lists realised as signed-permutation diagonal matrices. Partial: that LAPACK returns a '
-      'valid SVD and Eckart-Young optimality are NOT proved - the oracle validates orthonormality, ordering, leading '
-      'triplets and best-approximation error against numpy on every case.',
+      'rational singular-value lists realised as signed-permutation diagonal matrices. Best approximation: '
+      'C14_best_frobenius / C14_best_spectral prove Eckart-Young-Mirsky for ANY factorisation with orthonormal columns '
+      '(no matrix of rank <= r is closer, in Frobenius or spectral norm, than the leading r triplets; C14_residual gives '
+      'the error; C14_svd_exists: every real matrix has such a factorisation, with rank-many positive singular values). Partial: that LAPACK returns one is not proved - the oracle validates '
+      'orthonormality, ordering, leading triplets and best-approximation error against numpy on every case.',
       'Lean kernel + standard axioms + Mathlib order lemmas on Rat; scipy.linalg.svd (LAPACK) and optht are trusted and '
       'numerically validated; the model says "opaque" for the two optimal-hard-threshold methods.',
       'Lean 4 proof of the rank rule + exact correspondence; numeric validation of the SVD factors (partial)',
@@ -210,11 +212,13 @@ claim('C11', 'proof',
 claim('C12', 'proof',
       'Lean 4 theorems C12_* over Matrix R: the epigraph block [[Z, UL],[L^T U^T, I]] >= 0 is Z >= U H U^T (Schur complement, '
       'L L^T = H), every feasible point has tr Z >= tr(U H U^T) with Z = U H U^T feasible, and c - 2 tr(U G^T) + tr(U H U^T) is '
-      'exactly the documented quadratic cost; with pure Tikhonov the LMI problem has the EDMD minimiser (C06); two-norm '
-      'block: soundness (|Ux| <= gamma |x|). Correspondence: objective and blocks of the real problems for all 7 '
+      'exactly the documented quadratic cost; with pure Tikhonov the LMI problem has the EDMD minimiser (C06); the two-norm '
+      'block is EXACTLY the epigraph of the matrix two-norm (C12_twonorm_epigraph, both directions) and the nuclear-norm '
+      'block exactly the epigraph of the nuclear norm sum sigma_i (C12_nuclear_epigraph, both directions; a singular value '
+      'decomposition exists for every U: C12_nuclear_epigraph_exists, from the spectral theorem). Correspondence: objective and blocks of the real problems for all 7 '
       'inv_methods via PICOS evaluation. Oracle: cvxopt fits (both families, all reg methods), competitor search on the '
       'documented cost, agreement with Edmd.',
-      'Partial: nuclear-norm epigraph only one direction (C12_nuclear_partial), two-norm completeness not proved; numeric '
+      'Partial: numeric '
       "factorisations validated (L L^T = H) not proved; 'optimal' = optimal up to solver tolerance (competitor threshold "
       '2e-5 relative). Repaired defect F-dmdc.',
       'Lean 4 proof (Schur complement + trace algebra) + PICOS-evaluation correspondence + competitor-search oracle',
@@ -233,11 +237,11 @@ claim('C17', 'other',
       'Lean 4 theorems C17_*: weight_only inner product = (1/D) sum cos(<x-y, w_j>) and unit norm (exact identities), the '
       'offset-average integral for weight_offset, the KernelApproxLiftingFn layout, and the stream model of the seed '
       'plumbing (RandomState instance: disjoint positions; integer seed: weights and offsets read the same positions - '
-      'finding F-rff); C17_gaussian_kernel_mean: for i.i.d. standard normal weights the mean of a feature product IS the Gaussian kernel exp(-shape |x-y|^2) (Mathlib characteristic function), C17_cauchy_kernel_mean_1d: a Laplace weight gives the Cauchy kernel 1/(1+2 shape (x-y)^2) in one coordinate. Correspondence: transform vs the Lean Float evaluation of the feature-map formula given the '
+      'finding F-rff); C17_gaussian_kernel_mean: for i.i.d. standard normal weights the mean of a feature product IS the Gaussian kernel exp(-shape |x-y|^2) (Mathlib characteristic function), C17_cauchy_kernel_mean: i.i.d. Laplace weights give the product Cauchy kernel prod 1/(1+2 shape (x_i-y_i)^2), C17_laplacian_kernel_mean: i.i.d. Cauchy weights give the Laplacian kernel exp(-sqrt(2 shape) |x-y|_1) (Fourier inversion), all in any dimension; C17_offset_unbiased: weight_offset features are unbiased over an independent uniform offset; C17_concentration_*: for D independent draws the estimate deviates from the kernel by eps with probability <= 2 exp(-D eps^2 / 2) (Hoeffding; weight_offset: <= 4/(D eps^2), Chebyshev), i.e. the O(1/sqrt(D)) clause. Correspondence: transform vs the Lean Float evaluation of the feature-map formula given the '
       'fitted (W, b); output width; kernel -> distribution table; which draws replay RandomState(seed). Oracle: seeded '
       'fixed-size statistical test of unbiasedness against the closed-form kernels.',
-      'Not provable here and trusted: scipy samplers have the named distributions, the Fourier pair of the Laplacian kernel and the product over coordinates for the Cauchy kernel, '
-      'O(1/sqrt(D)) concentration. Known finding F-rff (integer seeds).',
+      'Not provable here and trusted: scipy samplers have the named distributions and successive draws are independent '
+      '(the hypotheses of the kernel-mean and concentration theorems). Known finding F-rff (integer seeds break exactly that independence).',
       'Lean 4 proof of the exact identities + Float correspondence + statistical oracle (partial)',
       'DESIGN.md section 5 C17')
 claim('C18', 'proof',
